@@ -96,9 +96,10 @@ class H3Ops:
                 ring = h3.k_ring(search_geoid, current_k)
 
                 # get all entities in this ring
+                # sorted: the ring is a set, and a tie is won by the first entity encountered
                 found = (
                     entity
-                    for cell in ring
+                    for cell in sorted(ring)
                     for entity in cls.get_entities_at_cell(cell, entity_search, entities)
                 )
 
